@@ -44,6 +44,8 @@ def fam_fold(tier):
                 for op in BINOPS:
                     for k2 in k2s:
                         yield fn([("decl", t1, "x", N(k1)), ("decl", t2, "y", B(op, X, N(k2))), ("ret", Y)], ret=t2)
+                        if not q and op not in ("+", "*", "&", "|", "^", "==", "!=", "&&", "||"):
+                            yield fn([("decl", t1, "x", N(k1)), ("decl", t2, "y", B(op, N(k2), X)), ("ret", Y)], ret=t2)
                 if not q or t2 in ("si", "uc"):
                     for u in ("-", "~", "!"):
                         yield fn([("decl", t1, "x", N(k1)), ("decl", t2, "y", ("u", u, X)), ("ret", Y)], ret=t2)
@@ -59,6 +61,8 @@ def fam_param(tier):
             for op in BINOPS:
                 for k in ([0, 1, 3, 255, 256, -1] if q else CONSTS):
                     yield fn([("decl", t2, "y", B(op, A, N(k))), ("ret", Y)], params=[(t1, "a"), ("si", "b")], ret=t2)
+                    if not q or (k in (0, 1) and t2 == "si"):
+                        yield fn([("decl", t2, "y", B(op, N(k), A)), ("ret", Y)], params=[(t1, "a"), ("si", "b")], ret=t2)
                 yield fn([("decl", t2, "y", B(op, A, Bp)), ("ret", Y)], params=[(t1, "a"), (t1, "b")], ret=t2)
             for tc in ALLT:
                 yield fn([("decl", t2, "y", ("c", tc, A)), ("ret", Y)], params=[(t1, "a"), ("si", "b")], ret=t2)
@@ -256,6 +260,40 @@ def fam_sym(tier):
             yield fn([("decl", t, "x", A), ("decl", t, "y", Bp), ("if", B("<", X, B("+", Y, N(d))), [("ret", B("<", X, Y))], None), ("ret", B(">=", X, Y))])
 
 
+def fam_ident(tier):
+    """identity / absorbing / small constants on EITHER side of every binary operator: q = K op v and q = v op K, followed by
+    uses that turn a (wrong) relation between q and v into judged integer or symbolic facts"""
+    q = tier == "quick"
+    Q = V("q")
+    ks = [0, 1, -1, 2] if q else [0, 1, -1, 2, 3, 255]
+    vts = ["si", "ui"] if q else ["si", "ui", "uc", "sc", "sl", "ss"]
+    for vt in vts:
+        for op in BINOPS:
+            for k in ks:
+                for left in (True, False):
+                    for src in (("param",) if q else ("param", "local", "expr")):
+                        if src == "param":
+                            v, head, params = A, [], [(vt, "a"), ("si", "b")]
+                        elif src == "local":
+                            v, head, params = X, [("decl", vt, "x", A)], [("si", "a"), ("si", "b")]
+                        else:
+                            v, head, params = B("+", A, Bp), [], [(vt, "a"), (vt, "b")]
+                        e = B(op, N(k), v) if left else B(op, v, N(k))
+                        d = head + [("decl", vt if not q else "si", "q", e)]
+                        if src == "expr":
+                            yield fn(d + [("ret", B("-", Q, v))], params=params)
+                            yield fn(d + [("if", B("==", Q, v), [("ret", N(1))], None), ("ret", Q)], params=params)
+                            continue
+                        yield fn(d + [("ret", B("-", Q, v))], params=params)
+                        yield fn(d + [("ret", B("==", Q, v))], params=params)
+                        yield fn(d + [("ret", B("+", Q, N(1)))], params=params)
+                        yield fn(d + [("if", B("==", Q, v), [("ret", N(1))], None), ("ret", Q)], params=params)
+                        if not q:
+                            yield fn(d + [("ret", B("<", Q, v))], params=params)
+                            yield fn(d + [("if", B("!=", Q, v), [("ret", B("-", v, Q))], None), ("ret", Q)], params=params)
+                            yield fn(d + [("e", ("post", "++", v)) if v[0] == "v" else ("e", ASG(Bp, N(0))), ("ret", B("-", Q, v))], params=params)
+
+
 def has_incdec_on(body, name):
     def walk(x):
         if isinstance(x, (tuple, list)):
@@ -297,7 +335,7 @@ def fam_cpp(tier):
 
 # smallest families first: a deadline cuts the tail of the largest one (fold)
 FAMILIES = [("narrow", fam_narrow, "c"), ("param", fam_param, "c"), ("loop", fam_loop, "c"), ("switch", fam_switch, "c"), ("mem", fam_mem, "c"),
-            ("sym", fam_sym, "c"), ("cpp", fam_cpp, "cpp"), ("cond", fam_cond, "c"), ("fold", fam_fold, "c")]
+            ("sym", fam_sym, "c"), ("ident", fam_ident, "c"), ("cpp", fam_cpp, "cpp"), ("cond", fam_cond, "c"), ("fold", fam_fold, "c")]
 
 
 # ---- classification of violations ---------------------------------------------------------------------------------
@@ -394,6 +432,8 @@ def site_info(b, r, v):
         info["decl"] = r.vtypes.get(node[2][1])
     if node[0] == "b" and node[3][0] == "n":
         info["rhs_const"] = node[3][1]
+    if node[0] == "b" and node[2][0] == "n":
+        info["lhs_const"] = node[2][1]
     if node[0] == "call":
         callee = [it[1] for it in (r.fn.get("pre") or []) if it[0] == "func" and it[1]["name"] == node[1]]
         if callee:
@@ -428,7 +468,13 @@ def classify(info):
         dest = P.TYPES.get(info.get("dest") or "")
         if n not in (0, 1) or (dest and dest[1] < 32):
             return "logical-operator-yields-operand"
-    if k == "lt" and node == "b" and op == "%" and info.get("rhs_const", 0) < 0:
+    if k == "eq" and node == "b" and op in CMPS and info.get("lhs_const", 0) < 0 and obs in (0, 1) and any(
+            ct and ct[1] == 0 and ct[0] >= 4 for ct in info["child_types"]):
+        return "comparison-negative-constant-on-left-of-unsigned-ignores-conversion"
+    if k == "eq" and node == "b" and op in ("/", "%") and T and T[1] == 0 and T[0] >= 4 and (
+            info.get("lhs_const", 0) < 0 or info.get("rhs_const", 0) < 0):
+        return "negative-constant-operand-of-unsigned-division-not-converted"
+    if k == "lt" and node == "b" and op == "%" and (info.get("rhs_const", 0) < 0 or n < 0):
         return "modulo-negative-divisor-range"
     if k == "eq" and T and conv(s64(n), T[0], T[1]) == obs:
         # the reported number is right before conversion to the expression's own type
@@ -454,6 +500,8 @@ def classify(info):
             return "operand-carries-value-converted-to-destination-type"
     if k in ("gt", "lt"):
         if node in ("b", "u") and op in ("+", "-", "*", "<<", "~") and T and T[1] == 0 and T[0] >= 4:
+            return "range-ignores-unsigned-wraparound"
+        if node == "v" and T and T[1] == 0 and T[0] >= 4 and set(info.get("defs", ())) & {"incdec", "cassign"}:
             return "range-ignores-unsigned-wraparound"
         if node == "u" and op == "~" and info["child_types"] and info["child_types"][0] and info["child_types"][0][0] < 4:
             return "range-bitnot-of-promoted-operand"
@@ -484,6 +532,12 @@ def classify(info):
             ct and (ct[1] == 0 or ct[0] < 4) for ct in info["child_types"]) and info.get("children_vars"):
         return "relation-between-variables-ignores-wraparound"
     return "unclassified:%s:%s:%s" % (k, node, op)
+
+
+def subtree_has(r, root, oid):
+    if root == oid:
+        return True
+    return any(subtree_has(r, c_, oid) for c_ in r.occs[root].children)
 
 
 def work(args):
@@ -536,6 +590,21 @@ def work(args):
             derived = any(tainted(c_) for c_ in o.children)
             if not derived and o.node[0] == "v":
                 derived = any(d[2] is not None and tainted(d[2]) for d in r.defs if d[0] == o.node[1])
+            if not derived and o.node[0] == "v":
+                # facts inferred from a controlling condition: derived when an earlier condition (if / while / for / switch,
+                # condition of ?:, left operand of && / ||) that mentions this variable contains an occurrence with a violated fact
+                conds = list(r.cond_tops)
+                for o2 in r.occs:
+                    if o2.parent is not None and o2.kind == "rv":
+                        par = r.occs[o2.parent]
+                        if par.node is not None and (par.node[0] == "?" or (par.node[0] == "b" and par.node[1] in ("&&", "||"))) \
+                                and par.children and par.children[0] == o2.id:
+                            conds.append(o2.id)
+                for cid in conds:
+                    c_ = r.occs[cid]
+                    if cid < o.id and o.node[1] in c_.vars and cid != o.id and tainted(cid) and not subtree_has(r, cid, o.id):
+                        derived = True
+                        break
             info = site_info(b, r, v)
             v.pop("occ")
             v.update({"expr": o.text, "fn": P.untup(r.fn), "plain": r.plain, "family": fam, "lang": lang,
